@@ -1,0 +1,31 @@
+//go:build verif
+
+package main
+
+// Contracts for package main (comment-only; build tag verif). Checked by
+// /verif/vcgen.
+
+// --no-X: the variable becomes the negation of the parsed boolean.
+//@ func (*NegatedBoolValue).Set
+//@   modifies *v.value
+//@   ensures result == nil ==> *v.value == !parseBoolK(keyof(s))
+
+// C14: gitconfig is consulted for an option family only when no option of
+// that family was given on the command line (Changed(...) false for all of
+// them). The k-th call of flags.Changed, in source order, asks about:
+// 0 json-version, 1 threshold, 2 verbose, 3 no-verbose, 4 critical, 5 names,
+// 6 progress, 7 no-progress.
+//@ func mainImplementation
+//@   modifies everything
+//@   call 0 Changed as chJSON
+//@   call 1 Changed as chThreshold
+//@   call 2 Changed as chVerbose
+//@   call 3 Changed as chNoVerbose
+//@   call 4 Changed as chCritical
+//@   call 5 Changed as chNames
+//@   call 6 Changed as chProgress
+//@   call 7 Changed as chNoProgress
+//@   call 0 ConfigIntDefault assert *jsonOutput && !chJSON
+//@   call 0 ConfigStringDefault assert !chThreshold && !chVerbose && !chNoVerbose && !chCritical
+//@   call 1 ConfigStringDefault assert !chNames
+//@   call 0 ConfigBoolDefault assert !chProgress && !chNoProgress
